@@ -6,7 +6,10 @@ types of their parameters.  It is used for two things only:
   * a function that is NOT listed is a helper somebody split off later: it is analysed as part of its callers;
   * a listed function whose parameters still have the listed types gets the listed parameter names, so that
     renaming a parameter does not change what a rule sees.
-Run it only after reviewing that every check passes on the tree (it is a reference, not an input of a check)."""
+Run it only after reviewing that every check passes on the tree (it is a reference, not an input of a check),
+and only when a rule has been written against a new function: a helper that merely carries part of a listed
+function (like cfg_newsec(), split off cfg_setopt() by a later fix) is deliberately NOT listed, so that it keeps
+being analysed as part of its caller."""
 import json, os, sys
 HERE = os.path.dirname(os.path.dirname(os.path.abspath(__file__)))
 sys.path.insert(0, HERE)
